@@ -45,6 +45,7 @@ func init() {
 			host("C11", c11Run),
 			host("C13/scripted", c13Run),
 			host("middleware", c12Middleware),
+			host("upload-reader", c12UploadReader),
 		},
 		Quick:    200000,
 		Thorough: 3000000,
